@@ -142,29 +142,43 @@ func (v *Verifier) VerifyFunc(fn *ssa.Function, opts UnitOpts, so *SolveOpts) *U
 		}
 	}
 	if res.Refused != "" {
-		// a function outside the subset is an undischarged `subset` obligation
+		// a function outside the subset is an undischarged `subset` obligation (partial obligations dropped)
+		obls = nil
 		o := &Obligation{Name: shortKey(fnKey(fn)) + "#subset", Kind: "subset", Func: fnKey(fn), Desc: res.Refused,
 			Queries: []*Query{{Goal: False, Result: "unknown", Backend: "generator"}}}
 		obls = append(obls, o)
 	} else {
 		SolveAll(obls, u.W.Prelude(), so)
-		// vacuity canaries: each return path must be satisfiable
-		var can []*Obligation
-		for i, q := range u.Canaries {
-			can = append(can, &Obligation{Name: fmt.Sprintf("canary.%d", i), Queries: []*Query{q}})
-		}
+		// vacuity canary: some return path must be satisfiable (a contradictory requires/invariant
+		// would make every path condition unsat). Stop at the first satisfiable one.
 		cso := *so
-		cso.Timeout = 2 * time.Second
+		cso.Timeout = 3 * time.Second
 		cso.FirstTry = 1 * time.Second
-		SolveAll(can, u.W.Prelude(), &cso)
-		for _, q := range u.Canaries {
-			switch q.Result {
-			case "sat":
-				res.CanaryOK++
-			case "unsat":
-				res.CanaryBad++
-			default:
-				res.CanaryUnknown++
+		cso.WantModel = false
+		cans := append([]*Query(nil), u.Canaries...)
+		sort.SliceStable(cans, func(i, j int) bool { return len(cans[i].PC) < len(cans[j].PC) })
+		for i := 0; i < len(cans) && res.CanaryOK == 0; i += 4 {
+			j := i + 4
+			if j > len(cans) {
+				j = len(cans)
+			}
+			var can []*Obligation
+			for k, q := range cans[i:j] {
+				can = append(can, &Obligation{Name: fmt.Sprintf("canary.%d", i+k), Queries: []*Query{q}})
+			}
+			SolveAll(can, u.W.Prelude(), &cso)
+			for _, q := range cans[i:j] {
+				switch q.Result {
+				case "sat":
+					res.CanaryOK++
+				case "unsat":
+					res.CanaryBad++
+				default:
+					res.CanaryUnknown++
+				}
+			}
+			if i >= 24 && res.CanaryUnknown > 0 {
+				break // quantified path conditions rarely come back `sat`; unknown is not vacuity
 			}
 		}
 	}
@@ -206,7 +220,7 @@ func (r *UnitResult) Dump(w *os.File, verbose bool) {
 		}
 		fmt.Fprintf(w, "  %-8s %s  [%s]  %s:%d  (%d queries, %.1fs, %s)\n", st, o.Name, o.Desc, shortFile(o.Pos.Filename), o.Pos.Line, len(o.Queries), secs, be)
 		for _, q := range o.Queries {
-			if q.Result == "sat" && len(q.Model) > 0 {
+			if q.Result != "unsat" && q.Result != "trivial" && len(q.Model) > 0 {
 				var ks []string
 				for k := range q.Model {
 					if strings.HasPrefix(k, "p_") || strings.HasPrefix(k, "lp_") {
